@@ -360,8 +360,9 @@ def check_property(pid, tier, seed, replay_only=None):
                             exhaustive=bool(exhaustive_parts) and P.get('exhaustive_claim', False), exhaustive_parts=sorted(set(exhaustive_parts)),
                             known_findings_reported=sorted(known_hit.keys())),
               assumptions=P['assumptions'], wall_s=round(time.time() - t0, 2), violations=len(violations))
-    os.makedirs(os.path.join(VERIF, 'evidence'), exist_ok=True)
-    with open(os.path.join(VERIF, 'evidence', pid + '.json'), 'w') as f: json.dump(ev, f, indent=1)
+    evdir = os.environ.get('VERIF_EVIDENCE_DIR', os.path.join(VERIF, 'evidence'))   # only the self-test redirects this
+    os.makedirs(evdir, exist_ok=True)
+    with open(os.path.join(evdir, pid + '.json'), 'w') as f: json.dump(ev, f, indent=1)
     shutil.rmtree(workdir, ignore_errors=True)
 
     for kid, k in sorted(known_hit.items()):
